@@ -197,7 +197,7 @@ theorem serialStep_mlt (hF : FiniteTable inp N) {s s' : Sys} {perm : List Name}
   | sTop node =>
     simp only [hr] at hs
     split at hs
-    · cases hs; exact mlt_same rfl (by simp [restOf, hr, rOf])
+    · cases hs; exact mlt_same rfl (by simp [restOf, curW, hr, rOf])
     · cases hsd : send inp s node perm with
       | none => simp only [hsd] at hs; cases hs
       | some s0 =>
@@ -207,7 +207,7 @@ theorem serialStep_mlt (hF : FiniteTable inp N) {s s' : Sys} {perm : List Name}
         have e2 : L2 N { s0 with rpc := RPC.sWait } = L2 N s0 := rfl
         have e3 : linS inp N { s0 with rpc := RPC.sWait } = linS inp N s0 := rfl
         have hrest : restOf { s0 with rpc := RPC.sWait } + 5 * s.ready.length + 1 ≤ restOf s + 5 * s0.ready.length := by
-          rcases hsu with h | h <;> simp [restOf, hr, rOf, wRank, f1, f2, h] <;> omega
+          rcases hsu with h | h <;> simp [restOf, curW, hr, rOf, wRank, f1, f2, h] <;> omega
         right; refine ⟨by omega, ?_⟩
         rcases g2 with a | ⟨a, b⟩
         · left; omega
@@ -225,7 +225,7 @@ theorem serialStep_mlt (hF : FiniteTable inp N) {s s' : Sys} {perm : List Name}
       | node n =>
         simp only [] at hs
         cases hn : s.nodes n with
-        | none => simp only [hn] at hs; cases hs; exact mlt_same rfl (by simp [restOf, raise, hr, hsu, rOf, wRank])
+        | none => simp only [hn] at hs; cases hs; exact mlt_same rfl (by simp [restOf, curW, raise, hr, hsu, rOf, wRank])
         | some nd =>
           simp only [hn] at hs
           have key : ∀ (hd : selDecision inp n nd ≠ .assertFail),
@@ -233,29 +233,29 @@ theorem serialStep_mlt (hF : FiniteTable inp N) {s s' : Sys} {perm : List Name}
             intro hd
             refine mlt_sameM (sameM_status hn (selStatus (selDecision inp n nd)) (applySel_nodes _ _ _ _ _ hd)) ?_
             obtain ⟨a, b, c, d⟩ := applySel_rest (inp := inp) s n nd (selDecision inp n nd)
-            simp [restOf, hr, hsu, rOf, wRank, a, b, c]
+            simp [restOf, curW, hr, hsu, rOf, wRank, a, b, c]
           cases hd : selDecision inp n nd with
           | go =>
             simp only [hd] at hs; cases hs
             refine mlt_sameM (sameM_status hn (selStatus .go) (applySel_nodes _ _ _ _ _ (by simp))) ?_
             obtain ⟨a, b, c, d⟩ := applySel_rest (inp := inp) s n nd .go
-            simp [restOf, startTask, hr, hsu, rOf, wRank, a, b, c, d]
+            simp [restOf, curW, startTask, hr, hsu, rOf, wRank, a, b, c, d]
           | assertFail =>
-            simp only [hd] at hs; cases hs; exact mlt_same rfl (by simp [restOf, raise, hr, hsu, rOf, wRank])
+            simp only [hd] at hs; cases hs; exact mlt_same rfl (by simp [restOf, curW, raise, hr, hsu, rOf, wRank])
           | skipIgn => simp only [hd] at hs; cases hs; have := key (by simp [hd]); rwa [hd] at this
           | unmet => simp only [hd] at hs; cases hs; have := key (by simp [hd]); rwa [hd] at this
           | depErr => simp only [hd] at hs; cases hs; have := key (by simp [hd]); rwa [hd] at this
           | utd => simp only [hd] at hs; cases hs; have := key (by simp [hd]); rwa [hd] at this
           | runFirst => simp only [hd] at hs; cases hs; have := key (by simp [hd]); rwa [hd] at this
           | argsErr => simp only [hd] at hs; cases hs; have := key (by simp [hd]); rwa [hd] at this
-      | stopIter => cases hs; exact mlt_same rfl (by simp [restOf, hr, hsu, rOf, wRank])
-      | holdOn => cases hs; exact mlt_same rfl (by simp [restOf, raise, hr, hsu, rOf, wRank])
-      | cyclic n => cases hs; exact mlt_same rfl (by simp [restOf, raise, hr, hsu, rOf, wRank])
-      | crash => cases hs; exact mlt_same rfl (by simp [restOf, raise, hr, hsu, rOf, wRank])
+      | stopIter => cases hs; exact mlt_same rfl (by simp [restOf, curW, hr, hsu, rOf, wRank])
+      | holdOn => cases hs; exact mlt_same rfl (by simp [restOf, curW, raise, hr, hsu, rOf, wRank])
+      | cyclic n => cases hs; exact mlt_same rfl (by simp [restOf, curW, raise, hr, hsu, rOf, wRank])
+      | crash => cases hs; exact mlt_same rfl (by simp [restOf, curW, raise, hr, hsu, rOf, wRank])
   | sExec n =>
     simp only [hr] at hs
     cases hn : s.nodes n with
-    | none => simp only [hn] at hs; cases hs; exact mlt_same rfl (by cases hcur : s.cur <;> simp [restOf, raise, hr, rOf, hcur])
+    | none => simp only [hn] at hs; cases hs; exact mlt_same rfl (by cases hcur : s.cur <;> simp [restOf, curW, raise, hr, rOf, hcur])
     | some nd =>
       simp only [hn] at hs; cases hs
       refine mlt_sameM (sameM_status hn (resStatus (inp.outcome n)) ?_) ?_
@@ -263,8 +263,8 @@ theorem serialStep_mlt (hF : FiniteTable inp N) {s s' : Sys} {perm : List Name}
         rw [processResult_nodes]; rfl
       · obtain ⟨a, b, c, d⟩ := processResult_rest (inp := inp)
           { s with rpc := .sExec n, events := Ev.fin n 0 :: s.events } n nd
-        simp [restOf, hr, rOf, a, b, c] <;> omega
-  | fin => simp only [hr] at hs; cases hs; exact mlt_same rfl (by cases hcur : s.cur <;> simp [restOf, finishRun, hr, rOf, hcur])
+        simp [restOf, curW, hr, rOf, a, b, c] <;> omega
+  | fin => simp only [hr] at hs; cases hs; exact mlt_same rfl (by cases hcur : s.cur <;> simp [restOf, curW, finishRun, hr, rOf, hcur])
   | gEntry a b => simp only [hr] at hs; cases hs
   | gLoop a b => simp only [hr] at hs; cases hs
   | gWait a => simp only [hr] at hs; cases hs
